@@ -31,7 +31,7 @@ notes = open(os.path.join(dst, 'notes.md')).read()
 meta = {
     'id': '%s-%s' % (pid, x),
     'breaks_property': pid,
-    'source': 'independent sub-agent given only the property text and a scratch worktree of /repo (HEAD 0080fa2)',
+    'source': 'independent sub-agent given only the property text and a scratch worktree of /repo (HEAD %s)' % subprocess.run('git -C %s rev-parse --short HEAD' % wt, shell=True, capture_output=True, text=True).stdout.strip(),
     'needs_to_manifest': 'see notes.md',
     'demo': 'seed_demo_%s.rs (cargo test --offline %s --test seed_demo_%s)' % (x, feat, x),
     'confirmed_by_me_in_scratch_worktree': {
